@@ -106,6 +106,22 @@ def build_jobs():
     jobs.append({"name": "unknown-rows", "kind": "shipped", "model": "Cisco Catalyst C3750",
                  "old": [{"row": ["zz-unknown-row", "1"], "kids": []}, {"row": ["hostname", "a"], "kids": []}],
                  "new": [{"row": ["zz-unknown-row", "2"], "kids": []}, {"row": ["hostname", "b"], "kids": []}]})
+    # rows the shipped rulebook deliberately does not manage (`!` rules), at the top level and inside a block: they take no part in the
+    # diff, and they are still in the caller's trees afterwards (the ordered configuration is computed from `new` after the diff)
+    jobs.append({"name": "ignored-rows:cisco", "kind": "shipped", "model": "Cisco Catalyst C3750",
+                 "old": [{"row": ["snmp-server", "user", "admin", "grp", "v3"], "kids": []}, {"row": ["hostname", "a"], "kids": []},
+                         {"row": ["interface", "GigabitEthernet1/0/1"], "kids": [{"row": ["no", "ip", "address"], "kids": []}, {"row": ["description", "x"], "kids": []}]}],
+                 "new": [{"row": ["snmp-server", "user", "admin", "grp", "v3"], "kids": []}, {"row": ["hostname", "b"], "kids": []},
+                         {"row": ["interface", "GigabitEthernet1/0/1"], "kids": [{"row": ["no", "ip", "address"], "kids": []}, {"row": ["description", "y"], "kids": []}]}]})
+    jobs.append({"name": "ignored-rows:huawei", "kind": "shipped", "model": "Huawei CE6870",
+                 "old": [{"row": ["snmp-agent", "local-engineid", "800007DB03"], "kids": []}, {"row": ["sysname", "a"], "kids": []}],
+                 "new": [{"row": ["sysname", "b"], "kids": []}, {"row": ["snmp-agent", "local-engineid", "800007DB04"], "kids": []}]})
+    # two boxes of one model running different software: the hardware view carries the software version too
+    for soft in ("VRP (R) software, Version 8.180 (CE8850 V200R005C10SPC800)", "VRP (R) software, Version 8.191 (CE8850 V200R019C10SPC800)"):
+        jobs.append({"name": "soft:" + soft[-19:-1], "kind": "shipped", "model": "Huawei CE8850", "soft": soft,
+                     "old": [{"row": ["ssh", "server-source", "-i", "Vlanif10"], "kids": []}, {"row": ["telnet", "server-source", "-i", "Vlanif10"], "kids": []},
+                             {"row": ["sysname", "a"], "kids": []}],
+                     "new": [{"row": ["sysname", "b"], "kids": []}]})
     return jobs
 
 
@@ -125,7 +141,7 @@ def run_job(job):
     E.init()
     from annet import api, patching, rulebook
     from annet.vendors import registry_connector
-    hw = E.hwview(job["model"], "")
+    hw = E.hwview(job["model"], job.get("soft", ""))
     old, new = cases.tree(job["old"]), cases.tree(job["new"])
     old0, new0 = copy.deepcopy(old), copy.deepcopy(new)
     acl = None
